@@ -19,7 +19,7 @@ CHECKS = {
 
 CHECKS["C16"] = dict(engine="table", technique="stateful property-based testing (proptest op histories over the real IP filters, invariant after every step)",
    text="Exploration: generated histories of the filter-respecting table API with signed records drawn from few /24 subnets, full buckets, pending promotion and subnet-moving updates; per-bucket (2) and per-table (10) limits evaluated after every elementary op. Found the pending-slot bypass of the table limit on the pinned tree (fixed).",
-   note="Trusted: enr crate for records; Entry::insert/value_mut excluded (documented to bypass filters); pending deadlines in regimes 0 / 1h+forced. Keys are real key hashes (buckets 250..255).",
+   note="Trusted: enr crate for records; Entry::insert/value_mut excluded (documented to bypass filters); pending deadlines in regimes 0 / 1h+forced. Keys are real key hashes (buckets 250..255). One case in 24 is a companion through the public API: a real service configured with ip_limit (IPv4 / IPv6 / dual stack); a clone of its table must respect the limits, also after promotion of waiting nodes.",
    ref="7.2 / C16")
 
 CHECKS["C09"] = dict(engine="query", technique="stateful property-based testing (event histories vs. an independent ledger; step-bounded drain as termination oracle)",
@@ -28,17 +28,17 @@ CHECKS["C09"] = dict(engine="query", technique="stateful property-based testing 
    ref="7.3 / C09")
 CHECKS["C10"] = dict(engine="query", technique="property-based testing with a ledger oracle over event histories",
    text="Exploration: the same generated histories; the final result is checked for size, distinctness, strict distance order (harness arithmetic), every id contacted and successfully answered while outstanding, predicate provenance, and completeness when short.",
-   note="Candidate set defined as documented (first num_results of the supplied sequence + ids in accepted successes). Same transport assumption as C09. Thorough tier adds a coverage-guided libFuzzer campaign over byte-decoded event histories (same ledger).",
+   note="Candidate set defined as documented (first num_results of the supplied sequence + ids in accepted successes). Same transport assumption as C09. Thorough tier adds a coverage-guided libFuzzer campaign over byte-decoded event histories (same ledger). One case in 14 is a whole lookup through Discv5::find_node / find_node_predicate on a real service behind a scripted handler (result as the caller sees it; requests left open; a second lookup with late answers of the first).",
    ref="7.3 / C10")
 
 CHECKS["C18"] = dict(engine="filter", technique="differential property-based testing against an exact token-bucket reference + metamorphic prune relation + ledger assertions on the real Filter",
    text="Exploration: generated arrival sequences against the real Limiter (explicit time) compared decision-by-decision with an exact integer token bucket, with a never-pruned twin (metamorphic) and a direct all-pairs window bound; generated arrival/permit/ban sequences against the real Filter and the real global permit/ban list with order-independent assertions (banned dropped, permitted passes, conforming passes, bursts bounded, offenders banned for >= the configured duration).",
-   note="Filter reads the real clock: only quotas with a 1 h period are used there (no replenishment within a case). Global PERMIT_BAN_LIST reset per case, one case at a time per process.",
+   note="Filter reads the real clock: only quotas with a 1 h period are used there (no replenishment within a case). Global PERMIT_BAN_LIST reset per case, one case at a time per process. Also drives the real receive task (VRecv hook: all packet kinds, exemptions) and, in one case in ~300, a running handler's periodic un-ban check in virtual time.",
    ref="7.6 / C18")
 
 CHECKS["C05"] = dict(engine="codec", technique="property-based testing: round-trip law + differential against a reference codec written from the wire spec + mutation in the unmasked domain",
    text="Exploration: hundreds of thousands of generated packets per run: structured packets of all kinds and sizes (incl. exactly 1280 bytes and overflow) must encode byte-identically to an independent reference encoder and round-trip with the exact authenticated data; field-level mutations applied before masking and arbitrary byte strings are judged by a reference decoder with the statement's must-reject list; any panic is a violation.",
-   note="Trusted: aes/ctr crates, enr crate for record validity. For IVs whose low 64 bits wrap inside one datagram only the comparison with the reference layout is excluded and counted (CTR counter width is not fixed by the spec); the crate's own round trip is still required for them. Thorough tier adds two coverage-guided libFuzzer campaigns (raw datagrams; datagrams assembled in the unmasked domain) with the same oracle inside the target.",
+   note="Trusted: aes/ctr crates, enr crate for record validity. For IVs whose low 64 bits wrap inside one datagram only the comparison with the reference layout is excluded and counted (CTR counter width is not fixed by the spec); the crate's own round trip is still required for them. Thorough tier adds two coverage-guided libFuzzer campaigns (raw datagrams; datagrams assembled in the unmasked domain) with the same oracle inside the target. One case in ~330 is a receive-path companion (well-formed datagrams of 71..1400 bytes through the real receive task of a handler).",
    ref="7.1 / C05")
 CHECKS["C06"] = dict(engine="codec", technique="property-based testing: round-trip law + differential against a reference RLP codec + RLP-structure mutation",
    text="Exploration: generated messages of all six kinds with boundary-biased fields and signed records must encode byte-identically to an independent RLP reference and round-trip (decode-encode idempotent); RLP-structure mutations and arbitrary bytes are judged by a reference decoder with the statement's must-reject list; any panic is a violation.",
@@ -47,7 +47,7 @@ CHECKS["C06"] = dict(engine="codec", technique="property-based testing: round-tr
 
 CHECKS["C13"] = dict(engine="wire", technique="stateful property-based testing over generated network/attacker schedules (real handlers on a virtual wire, paused clock), equation checked after every step",
    text="Exploration: thousands of generated schedules per run over 2..4 real handlers with the harness as network, clock, applications and attacker; after every step the exemption map of every handler must equal (active requests + outstanding challenges) per address, and be empty after the drain. Found two leaks on the pinned tree (second WHOAREYOU; handshake failing after its challenge was taken), both fixed.",
-   note="Handler internals are read through a guarded read-only probe; sockets are replaced by channels feeding the real receive path; tokio virtual time.",
+   note="Handler internals are read through a guarded read-only probe; sockets are replaced by channels feeding the real receive path; tokio virtual time. One case in 61 is a receive-task companion (VRecv hook): an address WITH an exemption is really let through (banned / over quota / scoped IPv6 sources), one without is not.",
    ref="7.5 / C13")
 
 CHECKS["C04"] = dict(engine="wire", technique="stateful property-based testing over generated fault schedules with a request/outcome ledger (real handlers, virtual wire, paused clock)",
@@ -57,7 +57,7 @@ CHECKS["C04"] = dict(engine="wire", technique="stateful property-based testing o
 
 CHECKS["C01"] = dict(engine="wire", technique="property-based adversary generation: attack scripts composed from the real handshake primitives against a real handler, history invariant after every step",
    text="Exploration: thousands of generated impersonation scripts per run (claimed id known/unknown/random; attacker-signed, garbage, empty, truncated signatures; own / genuine / third-party / no record with all seq relations and address fields; valid and invalid ephemeral keys; follow-up messages under attacker-derivable keys; replays; forged WHOAREYOUs) interleaved with genuine traffic; no effect may ever be attributed to a foreign id at an attacker address. Found the missing record-id/src-id binding on the pinned tree (fixed).",
-   note="Crypto primitives trusted. Outbound Established(Outgoing) before the responder proved itself is protocol design and not asserted (scope note in DESIGN.md).",
+   note="Crypto primitives trusted. Outbound Established(Outgoing) before the responder proved itself is protocol design and not asserted (scope note in DESIGN.md). One case in 61 is a service-engine companion (the service's reaction to who-are-you queries must not touch the routing table).",
    ref="7.0 / C01")
 
 CHECKS["C03"] = dict(engine="wire", technique="stateful property-based testing with replay injection and a ledger of emitted challenges (real handlers, virtual wire, paused clock)",
@@ -87,7 +87,7 @@ CHECKS["C14"] = dict(engine="svc", technique="property-based testing of the real
 
 CHECKS["C20"] = dict(engine="svc", technique="stateful property-based testing of the TALK request life cycle (respond / drop / hold / other thread / full or absent event stream / shutdown) with a per-request ledger",
    text="Exploration: generated scripts of concurrent TALKREQs and application reactions in all orders against the real service behind a scripted handler; after every step each request has exactly the expected TALKRESP (payload or empty) or none while held; after shutdown respond returns ChannelClosed and drop does not panic.",
-   note="Request ids unique per source within a script.",
+   note="Request ids unique per source within a script. One case in 151 is a wire-engine companion: up to 90 held TALK requests are answered in one go by a real handler (requesters possibly banned in between); every answer must hit the wire exactly once.",
    ref="7.4 / C20")
 
 CHECKS["C11"] = dict(engine="svc", technique="differential / metamorphic property-based testing: the implementation's own responder as the honest reference, harness-built malicious answers, all 257 target/peer distance classes by construction",
